@@ -74,4 +74,17 @@ PROPS = {
         "scope": "internal/compat: compareVersions, isVersionSupported, UnsupportedJSFeatures, ApplyOverrides over the table regenerated from js_table.go; the lowering passes themselves are reached by the feature-scanner search only",
         "assumptions": ["the feature scanner (harness/cmd/hscan) relies on esbuild's own parser to build the AST it walks"],
     },
+    "C02": {
+        "lean_modules": ["EsbuildModel.Props.C02"],
+        "theorems": [
+            "EsbuildModel.C02.dataurl_roundtrip",
+            "EsbuildModel.C02.dataurl_no_stripped_bytes",
+        ],
+        "open": ["Link.order_is_eval_order: FALSE with --tree-shaking=false (known finding c02-order-no-tree-shaking)"],
+        "gen_facts": [],
+        "kernels": [("dataurl", 20000, 600000)],
+        "searches": [("c02-graph", 240, 12000)],
+        "scope": "internal/helpers/dataurl.go: EncodeStringAsPercentEscapedDataURL modelled; export matching, module ordering, wrappers and runtime helpers are reached by the native-vs-bundle search only (so far)",
+        "assumptions": ["Node 20 is the reference for native module semantics"],
+    },
 }
